@@ -20,7 +20,7 @@ BOXES = ("mixed", "mixed", "boxed", "narrow", "narrow", "lower", "upper", "boxed
 
 def floors(tier):
     return {"runs": 500, "points_checked": 5000, "evaluations_with_component_on_bound": 1500, "fd_runs": 150, "runs_with_bounds_object_edited_in_place": 60, "runs_with_nested_run": 60, "nested_runs": 100,
-            "runs_with_low_precision_start": 80, "restart_legs": 300, "runs_with_user_step_cap": 200, "runs_on_boxes_of_magnitude_1e20_and_more": 50, "runs_with_user_functions_working_in_place_on_their_argument": 80, "__nontrivial__": 200}
+            "runs_with_low_precision_start": 80, "restart_legs": 300, "restart_legs_on_a_box_re-entered_with_last_digit_differences": 60, "runs_with_user_step_cap": 200, "runs_on_boxes_of_magnitude_1e20_and_more": 50, "runs_with_user_functions_working_in_place_on_their_argument": 80, "__nontrivial__": 200}
 
 
 def cases(tier, seed):
@@ -43,7 +43,7 @@ def cases(tier, seed):
         if i % 2 == 0:
             # the run is continued from its result, with a gradient scaler and a demanding curvature test on the restart leg
             spec["restart"] = {"scaler": float(np.exp(rng.uniform(np.log(1e-3), np.log(1e3)))), "extra": int(rng.integers(1, 6)),
-                               "eps_SY": float(gen.pick(rng, [2.2e-16, 0.3, 0.3, 0.5]))}
+                               "eps_SY": float(gen.pick(rng, [2.2e-16, 0.3, 0.3, 0.5])), "shifted_box": bool(i % 6 == 2)}
         if i % 10 == 7:
             # another optimisation (same n, another box, finite differences) runs nested inside the objective
             spec["nested"] = {"problem": gen.rand_spec(rng, ("qp", "sphere", "quartic"), nmax=8, boxes=("none", "mixed", "lower", "upper", "boxed"),
@@ -130,6 +130,29 @@ def run(spec):
         leg = probes.run_min(P, c2, checkpoint=tr.result, x0=np.array(tr.result.x, dtype=float, copy=True))
         out.count("restart_legs")
         e2e.mon_box(out, P, leg, cfg["jac"], dict(tags, phase="restart_leg_with_gradient_scaler"))
+    if spec.get("restart", {}).get("shifted_box") and tr.result is not None and not out.violations:
+        # the continuation is asked for on a box whose active sides were re-entered with a last-digit difference (bounds computed another
+        # way: 0.3 vs 3*0.1), from the checkpoint's point projected on it. The call may be refused; whatever it evaluates, reports or
+        # returns must lie in the box it was given
+        xs = np.array(tr.result.x, dtype=float)
+        P2 = gen.make_problem(spec["problem"]) if not spec.get("huge") else make_huge_box_problem(spec["problem"])
+        two = P.lb < P.ub
+        P2.lb = np.where(two & (xs == P.lb) & np.isfinite(P.lb), np.nextafter(P.lb, np.inf), P.lb)
+        P2.ub = np.where(two & (xs == P.ub) & np.isfinite(P.ub), np.nextafter(P.ub, -np.inf), P.ub)
+        P2.bounds = np.column_stack([P2.lb, P2.ub])
+        if np.all(P2.lb <= P2.ub) and (np.any(P2.lb != P.lb) or np.any(P2.ub != P.ub)):
+            x2 = np.clip(xs, P2.lb, P2.ub)
+            for extra in (0, spec["restart"]["extra"]):
+                c3 = dict(cfg, maxiter=int(tr.result.nit) + extra, cb="never")
+                c3.pop("x0_dtype", None)
+                c3.pop("hostile_user", None)
+                leg = probes.run_min(P2, c3, checkpoint=tr.result, x0=x2.copy())
+                out.count("restart_legs_on_a_box_re-entered_with_last_digit_differences")
+                if leg.exc is not None:
+                    out.count("restart_legs_refused:" + type(leg.exc).__name__)
+                e2e.mon_box(out, P2, leg, cfg["jac"], dict(tags, phase="restart_leg_on_a_box_differing_in_the_last_digit"))
+                if out.violations:
+                    break
     # second call with the SAME bounds array, tightened in place by the user (freeze a variable at its current value,
     # shrink the others around the solution): every point of the second run must respect the box as it is now
     if spec.get("edit_bounds") and tr.result is not None and not out.violations:
